@@ -26,6 +26,9 @@ class RealStream:
     def read(self, n):
         return self.io.read(n)
 
+    def seek(self, off, whence=0):
+        return self.io.seek(off, whence)
+
 
 def tag_byte(tag):
     if tag == ZERO:
